@@ -310,7 +310,17 @@ def rule_r6(ctx):
                 if not reads or not fins:
                     continue
                 n += 1
-                if f.dominated_by((c.b, c.i), blocked=lambda b, i, e: (b, i) == (t.b, t.i)):
+                # a helper called because the field is still occupied evicts the previous occupant; that has to
+                # happen before the new aio is stored
+                occupied = {}
+                for bid, k, atom, val in G.edge_facts(f):
+                    if atom.get("k") == "mem" and last_field(atom) == fld and val:
+                        occupied[bid] = k
+                for b_, k_ in G.nz_edges(f, lambda m: m.get("k") == "mem" and last_field(m) == fld).items():
+                    occupied.setdefault(b_, k_)
+                if occupied and G.dominated(f, (c.b, c.i), occupied) and (c.b, c.i) not in f.reach((t.b, t.i + 1)):
+                    r.ob(f, "%s evicts the previous occupant of %s before the store" % (h.name, fld))
+                elif f.dominated_by((c.b, c.i), blocked=lambda b, i, e: (b, i) == (t.b, t.i)):
                     r.ob(f, "%s stored before %s" % (fld, h.name))
                 else:
                     ctx.fail(r, f, "%s called before %s is stored" % (h.name, fld), c.line,
